@@ -21,6 +21,8 @@ LEVEL_TEXT = ('static: path rules on NoteEvent.play (send count, stamping, id so
               'precedence, guard and result type of the player step, None-contract and callable-attribute agreement on the '
               'parameter-selection path. Numeric key chains and parallel timelines are not decided.')
 LEVEL_NOTE = 'reference precedence from DESIGN appendix A.7'
+LEVEL_TEXT_ADD = ' Also: loop-carried sums never fed from a rounding call (C14.accum), Ppar local-clock / bridging-rest / rest-delta clauses, Pdur event conversion, scale and tuning objects reach the pitch chain unchanged.'
+LEVEL_TEXT = (globals().get('LEVEL_TEXT') or EXPLANATION) + LEVEL_TEXT_ADD
 TECHNIQUE = 'static analysis: path enumeration on play(), decision-table extraction of key functions, contract-agreement lints'
 
 KEYS = {
